@@ -27,7 +27,8 @@ def expected_rets(case):
     requested = {k: 0 for k in range(case.iters)}
     buf = None                 # (slot, n)
     out = []
-    prog = case.threads[0] if case.threads else []
+    # the one thread that has a program (not necessarily thread 0)
+    prog = next((t for t in case.threads if t), [])
 
     def val(i):
         return case.val_at(i)
@@ -156,10 +157,11 @@ def check_sequential(tr):
     except Unsupported:
         return []
     bad = []
-    ops = [o for o in tr.ops if o.tid == 0]
+    the_tid = next((i for i, t in enumerate(case.threads) if t), 0)
+    ops = [o for o in tr.ops if o.tid == the_tid]
     for i, e in enumerate(exp):
         if i >= len(ops):
-            bad.append("operation %d (%s) never returned" % (i, case.threads[0][i]))
+            bad.append("operation %d (%s) never returned" % (i, case.threads[the_tid][i]))
             break
         o = ops[i]
         if e is None:
